@@ -713,6 +713,7 @@ def _worker(job):
     hashes.update(sess.repo.hashes)
     from pyvc import values as _values
     hashes['$global_writes'] = dict(_values.GLOBAL_WRITES)
+    hashes['$dropped'] = list(_values.DROPPED)
     for _k, _v in _values.GLOBAL_READS.items():
         hashes['$global_writes']['read of the rebindable module variable ' + _k] = _v
     return out, hashes
@@ -740,6 +741,9 @@ def run_pool(run, pid, names=None, procs=None):
     for out, hashes in results:
         recs.extend(out)
         run.global_writes.update(hashes.pop('$global_writes', {}))
+        for _d in hashes.pop('$dropped', []):
+            if list(_d) not in run.dropped:
+                run.dropped.append(list(_d))
         run.hashes.update(hashes)
     recs.sort(key=lambda r: r['name'])
     return recs, tabs
